@@ -5,8 +5,8 @@ from . import c08
 
 SCHEMES = ['https', 'http', 'file', 'git+https', 'git+ssh', 'hg+static-http', 'svn+svn', 'bzr+lp', 'ftp', 'a+b', 'C', 'x-y.z', 's3', 'HTTPS']
 URL_TAILS = ['//h/p', '//h/p.whl', '///a/b', '//localhost/abs/dir/p.whl', '//localhost', '//u:pw@h:8080/p?q=1#f', '//h/${HOME}/p', 'p', '//h/[x]/p', '//h/p@v1', '\\path', '//h/a%20b']
-PATHS = ['./p', '../up/p.whl', '/abs/p', '/abs/dir/', 'rel/p', 'rel\\p', '.hidden', '.', '..', './a b', '\\\\unc\\p', '/p.tar.gz', './${HOME}/p', 'a/b@c', './p#frag', '~/p', 'dir.d/p']
-NAMES = ['foo', 'requests-2.26.0', 'Foo_Bar', 'a', 'x.y', 'pkg-1.0-py3-none-any', 'torch-2.1.0+cu118-cp310-cp310-linux_x86_64', 'pkg-1.0+local']
+PATHS = ['proj/é', './résumé', 'é/p', './p', '../up/p.whl', '/abs/p', '/abs/dir/', 'rel/p', 'rel\\p', '.hidden', '.', '..', './a b', '\\\\unc\\p', '/p.tar.gz', './${HOME}/p', 'a/b@c', './p#frag', '~/p', 'dir.d/p']
+NAMES = ['foo', 'requests-2.26.0', 'Foo_Bar', 'a', 'x.y', 'pkg-1.0-py3-none-any', 'torch-2.1.0+cu118-cp310-cp310-linux_x86_64', 'pkg-1.0+local', 'résumé-1.0', 'päckage', 'größe-2.0', 'パッケージ-1.0']
 EXTS = ['.whl', '.tbz', '.txz', '.tlz', '.zip', '.tgz', '.tar', '.tar.bz2', '.tar.xz', '.tar.lz', '.tar.lzma', '.tar.gz']
 NON_EXTS = ['.gz', '.txt', '.tar.txt', '.whl.txt', '', '.egg', '.bz2']
 SUFFIXES = ['', '[a]', '[a,b]', ' ; os_name == "a"', "[a] ; python_version >= '3.8'", ' ;os_name=="a"', '[ a , B_c ]', " ; extra == 'x' and os_name != 'b'",
@@ -34,7 +34,7 @@ def run(ctx):
         for e in EXTS:
             cases.append(('archive', n + e))
         for e in NON_EXTS:
-            if '+' not in n:          # the negative control needs a valid package name
+            if '+' not in n and n.isascii():          # the negative control needs a valid package name
                 cases.append(('plain-name', n + e))
     if quick:
         keep = [c for c in cases if c[0] != 'url' or c[1].startswith('file://localhost') or c[1].startswith('C:')] + ctx.rng.sample([c for c in cases if c[0] == 'url'], 60)
@@ -72,7 +72,7 @@ def run(ctx):
                         import re
                         mws = re.search(r'\s', text)
                         inside = mws is not None and text[:mws.start()].count('[') > text[:mws.start()].count(']')
-                        fcls = 'archive-spaced-extras' if (cls == 'archive' and inside and '+' in base) else None
+                        fcls = 'archive-spaced-extras' if (cls == 'archive' and inside and not re.fullmatch(r'[A-Za-z0-9._-]+', base)) else None
                         ctx.failure('%r (%s) is rejected with %r, not with the dedicated unsupported-requirement kind' % (text, cls, io[1:4]),
                                     {'entry': 'Requirement::from_str', 'input': text, 'class': cls}, fcls)
                 if ext and cls != 'plain-name':
